@@ -40,8 +40,11 @@ ASSUMPTIONS = [
 ]
 SHARDS = {'quick': 4, 'thorough': 16}
 TIMEOUT = {'quick': 900, 'thorough': 3600}
-FLOORS = {'faults_fired': 300, 'request_kinds': 6, 'fast_path_submissions': 20, 'multi_bunch_submissions': 20, 'later_updates': 20, 'job_id_agreements_checked': 300, 'fault_free_runs_judged': 100,
+FLOORS = {'fault_fired:overlapping-copies': 60, 'fault_fired:ackloss': 30, 'faults_fired': 300, 'request_kinds': 6, 'fast_path_submissions': 20, 'multi_bunch_submissions': 20, 'later_updates': 20, 'job_id_agreements_checked': 300, 'fault_free_runs_judged': 100,
           'consecutive_fast_path_updates_from_one_batch_object': 4}
+
+
+ACTIONS = ('lost', 'drop', 'dup', 'interleave', 'overlap1', 'overlap2', 'overlap3', 'overlap4', 'ackloss')
 
 
 def kind_of(method, path):
@@ -127,7 +130,57 @@ class Transport:
         if action == 'interleave':
             self.fired.append((idx, kind, action))
             await self.on_interleave()
-        r = await deliver()
+        if action.startswith('overlap'):
+            # the client's re-send (after a timeout) arrives while the first copy is still being served: at the k-th time the
+            # first copy asks the pool for a connection (never inside one of its open transactions) the second copy is served
+            # to completion, then the first copy carries on; the client reads the first copy's answer
+            import aiomysql
+
+            k, st = int(action[len('overlap'):]), {'n': 0, 'ran': False}
+
+            async def delay(site):
+                if site != 'connect' or st['ran']:
+                    return
+                st['n'] += 1
+                if st['n'] == k:
+                    st['ran'] = True
+                    aiomysql.HOOKS.pop('delay', None)
+                    self.fired.append((idx, kind, action))
+                    try:
+                        await deliver()
+                    except Exception:  # the overtaking copy's own failure is an answer nobody reads
+                        pass
+            aiomysql.HOOKS['delay'] = delay
+            try:
+                r = await deliver()
+            finally:
+                if aiomysql.HOOKS.get('delay') is delay:
+                    aiomysql.HOOKS.pop('delay', None)
+        elif action == 'ackloss':
+            # the connection to the database drops after the server applied a COMMIT of this request but before the
+            # acknowledgement arrives (pymysql 2013): gear.database.retry_transient_mysql_errors re-runs the transaction function
+            import aiomysql
+            import pymysql
+
+            st = {'done': False}
+
+            def fault_after(site, conn, sql):
+                if site == 'commit' and not st['done']:
+                    st['done'] = True
+                    self.fired.append((idx, kind, action))
+                    return pymysql.err.OperationalError(2013, 'Lost connection to MySQL server during query (injected after COMMIT)')
+                return None
+            prev = aiomysql.HOOKS.get('fault_after')
+            aiomysql.HOOKS['fault_after'] = fault_after
+            try:
+                r = await deliver()
+            finally:
+                if prev is None:
+                    aiomysql.HOOKS.pop('fault_after', None)
+                else:
+                    aiomysql.HOOKS['fault_after'] = prev
+        else:
+            r = await deliver()
         if action == 'dup':
             self.fired.append((idx, kind, action))
             r = await deliver()
@@ -291,14 +344,14 @@ def run(ctx):
         if len(sub) >= 3 and kinds.count('update-fast') >= 2:
             ctx.count('consecutive_fast_path_updates_from_one_batch_object')
         nreq = len(kinds)
-        plans = [{k: a} for k in range(nreq) for a in ('lost', 'drop', 'dup', 'interleave')]
+        plans = [{k: a} for k in range(nreq) for a in ACTIONS]
         m = ctx.pick(6, 25)
         for _ in range(m):
             size = rng.choice([2, 2, 3]) if not ctx.quick else 2
             ks = rng.sample(range(nreq), min(size, nreq))
-            plans.append({k: rng.choice(['lost', 'drop', 'dup', 'interleave']) for k in ks})
-        if ctx.quick and len(plans) > 30:
-            plans = rng.sample(plans, 30)
+            plans.append({k: rng.choice(ACTIONS) for k in ks})
+        if ctx.quick and len(plans) > 45:
+            plans = rng.sample(plans, 45)
         for plan in plans:
             res = play(ctx, seed, sub, plan)
             if res is None:
@@ -308,6 +361,9 @@ def run(ctx):
             desc = {'submission': sub, 'requests': kinds, 'plan': {str(k): v for k, v in plan.items()}, 'fired': fired}
             ctx.case(sample={'requests': kinds, 'plan': desc['plan']}, key=(str(sub), str(sorted(plan.items()))), nontrivial=bool(fired))
             ctx.count('faults_fired', len(fired))
+            for f in fired:
+                ctx.count('fault_fired:' + ('overlapping-copies' if f[2].startswith('overlap') else f[2]))
+                ctx.seen('fault_sites', f'{f[1]}:{f[2]}')
             n_foreign = sum(u[3] for u in s['updates'] if u[7] and u[6])  # jobs of foreign updates that were really committed
             if err is not None:
                 ctx.violation('submission-fails-under-retry/' + type(err).__name__, f'{type(err).__name__}: {str(err)[:200]} with faults {fired}', desc)
